@@ -220,7 +220,7 @@ fn well_formed(ops: &[Op]) -> bool {
                 }
                 live[s as usize] = 0
             }
-            Op::StreamIsTerm(s) => {
+            Op::StreamIsTerm(s) | Op::MoveStream(s) => {
                 if live[s as usize] != 3 {
                     return false;
                 }
@@ -1339,6 +1339,38 @@ fn c07(thorough: bool) -> Suite {
         &[vec![(A, A), (S, S)]],
         &[(S, Conv::Clone)],
         &[stalled(env(2, 1, None, Some(2)), 14)],
+        false,
+    ));
+    // the stream moved between polls (it is Unpin), and timed calls whose
+    // deadline computation overflows (they panic; the panic must leave nothing
+    // behind)
+    ps.extend(product(
+        "c07-moved-stream",
+        &[
+            seqs_upto(&[Op::Send, Op::TrySend], 2),
+            vec![
+                vec![Op::FStream(0), Op::Poll(0, 0), Op::MoveStream(0), Op::Poll(0, 0), Op::StreamNext(0)],
+                vec![Op::FStream(0), Op::Poll(0, 0), Op::MoveStream(0), Op::FDrop(0)],
+            ],
+        ],
+        &[Cap::B(0), Cap::B(1)],
+        &[Class::L],
+        &[vec![(S, S), (A, A)]],
+        &[(S, Conv::Clone)],
+        &[env(2, 1, None, pb2(thorough))],
+        false,
+    ));
+    ps.extend(product(
+        "c07-overflow",
+        &[
+            vec![vec![Op::SendT(255), Op::TrySend], vec![Op::SendOT(255)], vec![Op::TrySend, Op::SendT(255)]],
+            vec![vec![Op::TryRecv, Op::Recv], vec![Op::RecvT(255), Op::TryRecv], vec![Op::Recv]],
+        ],
+        &[Cap::B(0), Cap::B(1)],
+        &[Class::L, Class::DP],
+        &sync_only(2),
+        &[(S, Conv::Clone)],
+        &[env(2, 1, None, pb2(thorough))],
         false,
     ));
     // 3 threads: waiter + peer + closer / canceller
